@@ -162,12 +162,38 @@ def build(cfg, mon, extra_flags=None):
         lockm.close()
 
 
+def build_fuzzer(name):
+    """clang libFuzzer + ASan + UBSan build of harness/<name>.cpp together with the library sources"""
+    flags = ["-std=c++17", "-O1", "-g", "-fno-omit-frame-pointer", "-fsanitize=fuzzer,address,undefined",
+             "-fno-sanitize-recover=all", "-fno-sanitize=signed-integer-overflow,object-size", "-D" + GUARD]
+    src = os.path.join(HARNESS, name + ".cpp")
+    key = _sha(_walk(LIBDIR) + _deps(src, ["-std=c++17", "-D" + GUARD]), " ".join(flags))[:20]
+    d = os.path.join(BUILD, "fuzz", key)
+    os.makedirs(d, exist_ok=True)
+    exe = os.path.join(d, name)
+    lockf = open(os.path.join(BUILD, "fuzz", ".lock"), "w")
+    fcntl.flock(lockf, fcntl.LOCK_EX)
+    try:
+        if not os.path.exists(exe):
+            cmd = (["clang++"] + flags + ["-I", INC, "-I", os.path.join(HARNESS, "common"), "-I", HARNESS,
+                   '-DVF_MON_NAME="%s"' % name, src] + [os.path.join(SRC, t) for t in LIB_TUS] + ["-o", exe + ".tmp"])
+            _run(cmd, None)
+            os.replace(exe + ".tmp", exe)
+        os.utime(d, None)
+        _prune(os.path.join(BUILD, "fuzz"), key)
+        return exe
+    finally:
+        fcntl.flock(lockf, fcntl.LOCK_UN)
+        lockf.close()
+
+
 def build_many(pairs):
     """pairs: iterable of (cfg, mon[, extra_flags]) -> dict {(cfg, mon): exe}. Builds in parallel."""
     pairs = list(dict.fromkeys(tuple(p) if len(p) == 2 else (p[0], p[1], tuple(p[2])) for p in pairs))
     out = {}
     with ThreadPoolExecutor(max(1, min(16, len(pairs)))) as ex:
-        futs = {p: ex.submit(build, p[0], p[1], list(p[2]) if len(p) > 2 else None) for p in pairs}
+        futs = {p: (ex.submit(build_fuzzer, p[1]) if p[0] == "fuzz" else ex.submit(build, p[0], p[1], list(p[2]) if len(p) > 2 else None))
+                for p in pairs}
         for p, f in futs.items():
             out[(p[0], p[1])] = f.result()
     return out
